@@ -70,7 +70,7 @@ func c02Nontrivial(m *model.Packet, frame []byte) bool {
 func TestC02(t *testing.T) {
 	r := vf.NewRec("C02")
 	defer r.Finish(t)
-	guard.StartWatchdog(*vf.Out, "C02")
+	guard.StartWatchdog(*vf.Out, vf.Label("C02"))
 
 	for _, rf := range r.LoadReplays(t) {
 		var c caseC01
